@@ -223,6 +223,35 @@ func c05Case(c *core.Ctx, r *core.Rand, idx int) error {
 			}
 			return buildVariant(v, r)
 		}
+		if r.Chance(1, 8) {
+			// an operation that FAILS part-way: a value the codec refuses only after it has written some bytes (a link or
+			// bytes value deep inside a container, under the codecs that cannot express them).  It must leave no trace:
+			// every later link is still compared with a fresh link system's.
+			bad := core.List(core.Int(1), core.Str("padding padding padding"), core.Map(core.KV{K: []byte("k"), V: core.Link(core.GenCid(r))}))
+			if r.Bool() {
+				bad = core.Map(core.KV{K: []byte("a"), V: core.Int(1)}, core.KV{K: []byte("b"), V: core.List(core.Bytes([]byte{1, 2, 3}))})
+			}
+			code := []uint64{0x51, 0x0200, 0x0200}[r.Intn(3)]
+			if code == 0x51 && bad.K == '{' {
+				code = 0x0200 // plain cbor can express bytes; json cannot
+			}
+			lp := cidlink.LinkPrototype{Prefix: cid.Prefix{Version: 1, Codec: code, MhType: c06Hashes[r.Intn(len(c06Hashes))], MhLength: -1}}
+			if n, err := core.BuildBasic(bad, nil); err == nil {
+				var ferr error
+				if r.Bool() {
+					hist = append(hist, fmt.Sprintf("failing-store[0x%x mh0x%x]", code, lp.MhType))
+					_, ferr = sys.lsys.Store(linking.LinkContext{}, lp, n)
+				} else {
+					hist = append(hist, fmt.Sprintf("failing-compute[0x%x mh0x%x]", code, lp.MhType))
+					_, ferr = sys.lsys.ComputeLink(lp, n)
+				}
+				if ferr == nil {
+					c.Dist("failing-op:accepted")
+				} else {
+					c.Dist("failing-op:refused")
+				}
+			}
+		}
 		switch k := r.Intn(7); {
 		case k <= 1 || it.lnk == nil: // store (possibly a different insertion order of the same value)
 			v := it.v
